@@ -85,6 +85,12 @@ def compare(ctx, behaviours, cases, outs, crashes, mode):
             if got["max"] != s["max"]:
                 ctx.mismatch("maxMemoryAllocated:%s" % classify(b, j), pre + "maxMemoryAllocated() = %d, spec %d" % (got["max"], s["max"]), [cases[i]])
                 break
+            if got["psz"] != c01.seqs(s["psz"]):
+                # the counters agree with the spec but the pool is not as large as the transcribed placement says:
+                # a different (possibly legitimate) pool policy -- reported under its own signature
+                ctx.mismatch("pool-size:%s" % classify(b, j), pre + "pool size() = %s, spec %s (counters agree: the transcribed pool "
+                             "placement of Accounting.tla no longer matches memoryPool.cpp)" % (got["psz"], c01.seqs(s["psz"])), [cases[i]])
+                break
         else:
             steps += 1
             if o["end"]["mem"] != 0:
@@ -97,18 +103,22 @@ def run(ctx):
     thorough = ctx.tier == "thorough"
     W = 8 if thorough else 4
     cov = {}
-    for cfg in (["mc/Accounting_design.cfg", "mc/Accounting_design_large.cfg"] if thorough else ["mc/Accounting_design.cfg"]):
+    # quick: buffers and pool separately (their effects on the counter add up); thorough: also the product
+    cfgs = ["mc/Accounting_design_bufs.cfg", "mc/Accounting_design_pool.cfg"] + (["mc/Accounting_design_large.cfg"] if thorough else [])
+    for cfg in cfgs:
         r = ctx.tlc("mc/MC_Accounting.tla", cfg, workers=W, coverage=True, timeout=3000)
         ctx.tlc_must_pass(r, "Accounting design (%s)" % cfg)
-        ctx.require_coverage(r, ACTIONS)
         for a in ACTIONS:
             cov[a] = cov.get(a, 0) + r.coverage.get(a, (0, 0))[1]
+    missing = [a for a in ACTIONS if cov[a] == 0]
+    if missing:
+        raise Broken("vacuity: actions never taken in the design runs: %s" % missing)
     r = ctx.tlc("mc/MC_Accounting.tla", "mc/Accounting_leaky.cfg", workers=2, count=False, expect_violation=True, timeout=900)
     if r.violated != "Conservation":
         raise Broken("skipping the un-count of use_host_pointer allocations no longer violates Conservation on the model "
                      "(rc=%s, violated=%s)\n%s" % (r.rc, r.violated, r.out[-1500:]))
-    gens = [("mc/Accounting_gen4.cfg", None, None), ("mc/Accounting_sim.cfg", 500, 20)] if thorough else \
-           [("mc/Accounting_gen3.cfg", None, None), ("mc/Accounting_sim.cfg", 60, 20)]
+    gens = [("mc/Accounting_gen4.cfg", None, None), ("mc/Accounting_genp3.cfg", None, None), ("mc/Accounting_sim.cfg", 500, 24)] if thorough else \
+           [("mc/Accounting_gen3.cfg", None, None), ("mc/Accounting_genp2.cfg", None, None), ("mc/Accounting_sim.cfg", 60, 24)]
     behaviours, gen_counts = [], {}
     for cfg, sim, depth in gens:
         g = ctx.tlc("mc/MC_Accounting.tla", cfg, workers=W if sim else 4, simulate=sim, depth=depth, deadlock=False, timeout=3000)
@@ -151,9 +161,11 @@ def run(ctx):
     ctx.cov.update({"behaviours_replayed": replayed, "distinct_behaviours": k, "steps_checked": steps, "crashes": ncrash, "leak_checks": leak_checks,
                     "generated": gen_counts, "actions_taken_in_design_run": cov, "leaky_counterexample": True})
     ctx.assumptions += [
-        "one device per history; malloc sizes 16/48 bytes; pool reservations of exactly one 128-byte cell (alignment 128), so that "
-        "pool placement never matters; pool sizes 0..3 cells; setAlignment only toggles between 128 and 64 (every reservation stays one "
-        "128-byte cell); detach() is not exercised",
+        "one device per history; malloc sizes 16/48 bytes; pools are used through reserve() only (no slices of reservations): "
+        "reservations of 40/100/300 bytes, alignments 32/128/512 (setAlignment coarser and finer, with live reservations and on an "
+        "empty pool), resize to 0/200/512/1024 bytes, pools up to 2048 bytes; detach() is not exercised",
+        "the pool sizes are predicted by a transcription of the placement of memoryPool.cpp (reserve/reallocate/migrate/"
+        "computeReserved); a legitimate change of that policy shows up as pool-size:... , not as an accounting signature",
         "use_host_pointer x own_host_pointer x (source pointer given or not) are per-call memory properties",
         "the transient old+new peak inside a pool resize with live reservations counts for maxMemoryAllocated() (it is the true high-water mark)",
         "modes Serial (quick) and Serial+OpenMP (thorough)",
